@@ -33,6 +33,16 @@ CHECKS['C02'] = dict(
     note='trusted: TLC, SmilesRead.tla/SmilesValence.tla/Cx.tla, stored-field projection; aromatic texts compared after kekule+thiele of the read-back molecule; allene marks not compared yet',
     technique='TLA+ reference reader as judge of written texts + TLC trace validation of write/read round trips',
     design='5/C02')
+CHECKS['C01'] = dict(
+    text='For corpus and hand-picked molecules, structure-preserving actions (renumber, copy, respelling by the random-order writer, by RDKit, '
+         'through Kekule / aromatic-bond forms) and structure-changing actions (bump charge / radical / isotope / bond order, invert one centre) '
+         'are recorded with the explicit bijection; TLC verifies that the variant is the image of the base (constitution, tetrahedral parity, '
+         'double-bond relations), evaluates the domain predicate with its own colour refinement, and requires equal string / == / hash (or '
+         'different ones). Exhaustive part: every labelled graph on <= 4-5 atoms; TLC computes isomorphism-class keys and requires string '
+         'classes and structure classes to be in bijection.',
+    note='trusted: TLC, Graphs/Sym/Stereo.tla, projection; molecules with allene marks skipped; domain predicate conservative (refinement classes)',
+    technique='TLC trace validation of recorded (base, variant, bijection) triples + exhaustive labelled-graph enumeration with TLC-computed isomorphism keys',
+    design='5/C01')
 PENDING = {}
 
 
